@@ -7,7 +7,9 @@
 (*   Begin(i, seed, verdict, app, script, method)  -> CInit                *)
 (*   Read(ok)  Write(offered, accepted | -1)  Flush(ok)                    *)
 (*   End(outcome, r)   outcome: ok | err (Server::process returned) |      *)
-(*                     panic | abort (no Conn action: a crash)             *)
+(*                     panic | abort (no Conn action: a crash) |           *)
+(*                     hang (the call never returned: spinning on an       *)
+(*                     exhausted transport or stalled; no Conn action)     *)
 (* Total: every event is consumed; the first protocol deviation of a       *)
 (* connection is reported and the remaining transport events of that       *)
 (* connection are skipped, its End is still judged.                        *)
@@ -60,11 +62,11 @@ MethodForFraming(r) == IF meta.verdict = "valid" \/ r.status < 400 THEN meta.met
 
 EndViolations(e) ==
     LET r == e.r
-        crashed == e.outcome \in {"panic", "abort"}
+        crashed == e.outcome \in {"panic", "abort", "hang"}
         cleanTransport == ~fault /\ meta.script.kind \in {"unlimited", "chunk", "short_first"}
         delivered == ~fault /\ total > 0 /\ remaining = 0
     IN
-    (IF "C04" \in Props /\ crashed THEN {"C04.crash"} ELSE {})
+    (IF "C04" \in Props /\ crashed THEN {IF e.outcome = "hang" THEN "C04.never_answered" ELSE "C04.crash"} ELSE {})
     \cup (IF "C04" \in Props /\ ~crashed /\ Answerable /\ cleanTransport /\ r.raw_len = 0 THEN {"C04.no_response"} ELSE {})
     \cup (IF "C04" \in Props /\ ~crashed /\ delivered /\ meta.verdict = "reject" /\ r.status < 400
           THEN {"C04.unparseable_request_not_an_error_status"} ELSE {})
